@@ -8,6 +8,7 @@ import InovesaModel.Model.ElectricField
 import InovesaModel.Model.Options
 import InovesaModel.Model.MainProgram
 import InovesaModel.Model.DynamicRF
+import InovesaModel.Gen.Sizes
 import InovesaModel.Model.Impedance
 open Inovesa
 namespace Driver
@@ -98,7 +99,7 @@ def runFP (c : Case) : List String :=
   let e1 := c.extra.getD 0 f32zero
   let ry : Ruler Float32 := { steps := n, min := c.extra.getD 3 f32zero, max := c.extra.getD 4 f32zero }
   let delta := ry.delta
-  let yc := ry.zerobin
+  let yc := fpYcenter n ry.zerobin
   let p : Nat → Float32 := fun j => ry.at j
   let jc : Nat := match f32modf yc with
     | some (i, _) => i
@@ -356,7 +357,7 @@ def runFPIter (c : Case) : List String :=
   let e1 := c.extra.getD 0 f32zero
   let ry : Ruler Float32 := { steps := n, min := c.extra.getD 3 f32zero, max := c.extra.getD 4 f32zero }
   let delta := ry.delta
-  let yc := ry.zerobin
+  let yc := fpYcenter n ry.zerobin
   let pArr := ((List.range n).map ry.at).toArray
   let p : Nat → Float32 := fun j => pArr.getD j f32zero
   let jc : Nat := match f32modf yc with
@@ -506,6 +507,26 @@ def runRot (c : Case) : List String :=
     ["case " ++ c.id, hexLine "off" rfOff.toList, hexLine "off" drOff.toList] ++ lines ++ [hexLine "out" g.toList]
   | _, _ => ["case " ++ c.id, "undefined float-to-uint32"]
 
+/-- token class of a word of an impedance file (see `Tok`): digits only = record number / value;
+    `[-+]digits[.digits]` = value; anything else is rejected by the stream extraction -/
+def tokOf (w : String) : Tok :=
+  if !w.isEmpty && w.all Char.isDigit then .idx w.toNat!
+  else
+    let (neg, body) := if w.startsWith "-" then (true, (w.drop 1).toString) else if w.startsWith "+" then (false, (w.drop 1).toString) else (false, w)
+    match body.splitOn "." with
+    | [a] => if !a.isEmpty && a.all Char.isDigit then .num (if neg then -(a.toNat! : Rat) else (a.toNat! : Rat)) else .bad
+    | [a, b] =>
+      if !a.isEmpty && a.all Char.isDigit && !b.isEmpty && b.all Char.isDigit then
+        let v : Rat := (a.toNat! : Rat) + mkRat b.toNat! (10 ^ b.length)
+        .num (if neg then -v else v)
+      else .bad
+    | _ => .bad
+
+/-- value of a short dyadic decimal as binary32 (exact for the values the generator uses) -/
+def ratToF32 (r : Rat) : Float32 :=
+  let v : Float := (Float.ofInt r.num) / (Float.ofNat r.den)
+  v.toFloat32
+
 /-- imp <id> <model> <n> ; extra = parameters ; aux = library values -/
 def runImp (c : Case) : List String :=
   let model := c.head.getD 2 ""
@@ -530,7 +551,27 @@ def runImp (c : Case) : List String :=
     let delta : Float32 := (fmax / f0 / (n.toFloat - 1.0)).toFloat32
     out (resistiveWall n r (fun i => Float32.sqrt (Float32.ofNat i * delta)))
   | "coll" => out (constImpedance n (c.aux.getD 0 f32zero, f32zero))
+  | "sum" =>
+    let t := addInto (constImpedance n (e 1, e 2)) (constImpedance (natArg c 4) (e 3, e 4))
+    ["case " ++ c.id, s!"ints {t.length} {t.length}", hexLine "vals" (t.flatMap fun z => [z.1, z.2])]
+  | "file" =>
+    let toks := (c.words.toList.filter (· != "~")).map tokOf
+    let t := (readData toks).map fun r => (ratToF32 r.1, ratToF32 r.2)
+    ["case " ++ c.id, s!"ints {t.length} {t.length}", hexLine "vals" (t.flatMap fun z => [z.1, z.2])]
+  | "pow2" =>
+    ["case " ++ c.id, c.words.foldl (fun s w => s ++ " " ++ toString (upperPow2 (w.toNat?.getD 0))) "ints"]
   | _ => ["case " ++ c.id, "skip not-modelled"]
+
+/-- sizes <id> <psBins> <nbuckets> <roundPadding> ; ops = spacing_num spacing_den padding_num padding_den
+    evaluates the GENERATED buffer-length arithmetic of main() -/
+def runSizes (c : Case) : List String :=
+  let w := fun i => ((c.words.getD i "0").toNat?.getD 0)
+  let i : SizeIn := { psBins := natArg c 2, nbuckets := natArg c 3, roundPadding := natArg c 4 == 1,
+                      spacingPs := mkRat (w 0) (w 1), optPadding := mkRat (w 2) (w 3) }
+  let o := Gen.sizes i upperPow2
+  ["case " ++ c.id,
+   s!"ints {o.spacingBins} {o.paddedBins} {o.spacedBins} {o.wakeLength} {o.wakeSpacing}",
+   (List.range i.nbuckets).foldl (fun s k => s ++ " " ++ toString (Gen.bucketNumber i k)) "ints"]
 
 def dispatch (c : Case) : List String :=
   match c.kind with
@@ -548,6 +589,7 @@ def dispatch (c : Case) : List String :=
   | "rot" => runRot c
   | "imp" => runImp c
   | "drift" => runDrift c
+  | "sizes" => runSizes c
   | k => ["case " ++ c.id, "error unknown-kind " ++ k]
 
 end Driver
